@@ -56,9 +56,12 @@ func (i *inputString) getCurrentAsByte() byte {
 		i.eof = true
 		return 0
 	}
+	// byte offset of the current code point: walk the string the way the []rune conversion did
+	// (an invalid byte became one U+FFFD rune but is one byte long, not RuneLen(U+FFFD) = 3)
 	var pos int
 	for j := 0; j < i.pointer; j++ {
-		pos += utf8.RuneLen(i.runes[j])
+		_, size := utf8.DecodeRuneInString(i.s[pos:])
+		pos += size
 	}
 	return i.s[pos]
 }
